@@ -22,6 +22,7 @@ type crashStats struct {
 	opensOK            int64
 	opensFailed        int64
 	contentChecks      int64
+	continuations      int64
 	weakFiles          int64
 	sharedPoints       int64
 	capped             int32
@@ -40,6 +41,7 @@ func (s *crashStats) fill(c map[string]any) {
 	c["truncation_opens_ok"] = atomic.LoadInt64(&s.opensOK)
 	c["truncation_opens_failed"] = atomic.LoadInt64(&s.opensFailed)
 	c["truncation_content_comparisons"] = atomic.LoadInt64(&s.contentChecks)
+	c["truncation_continuations"] = atomic.LoadInt64(&s.continuations)
 	c["truncation_points_identical_to_smaller_file"] = atomic.LoadInt64(&s.sharedPoints)
 	c["truncation_files_with_failing_open"] = atomic.LoadInt64(&s.filesOpenFailed)
 	c["truncation_files_serving_invalidated_record"] = atomic.LoadInt64(&s.filesResurrected)
@@ -255,7 +257,8 @@ func (w *world) crashCheck() {
 	tmp := w.path + ".cut"
 	defer os.Remove(tmp)
 	curLen, dirty := -1, true
-	var headerFail, openFail, wrong []int
+	var headerFail, openFail, wrong, contWrong []int
+	var firstCont string
 	resurrected := map[string][]int{} // "[id:list!]" -> lengths
 	var firstErr, firstWrong string
 	for _, n := range cuts {
@@ -292,6 +295,8 @@ func (w *world) crashCheck() {
 		atomic.AddInt64(&e.stats.opensOK, 1)
 		dirty = true
 		contained := 0
+		matched := [numIDs]int{-1, -1, -1}
+		allMatched := true
 		for id := 0; id < numIDs; id++ {
 			if c.Contains(uint64(id)) {
 				contained++
@@ -332,12 +337,14 @@ func (w *world) crashCheck() {
 			var d *diff
 			for _, li := range accept {
 				if d = e.observeID(c, id, li); d == nil {
+					matched[id] = li
 					break
 				}
 			}
 			if d == nil {
 				continue
 			}
+			allMatched = false
 			if invalidated != nil && e.observeID(c, id, invalidated.list) == nil {
 				k := e.sig([]rec{*invalidated})
 				resurrected[k] = append(resurrected[k], n)
@@ -350,7 +357,44 @@ func (w *world) crashCheck() {
 			wrong = append(wrong, n)
 			firstWrong = fmt.Sprintf("length %d: StreamCount()=%d but Contains is true for %d ids", n, got, contained)
 		}
+		// continuation: the recovered cache must keep working - one more store, read back, reopen.
+		// Done for the cuts around the start of the last record (boundary, every byte of its 8-byte
+		// header, one byte into its body) and for the full length.
+		lastStart := ends[0]
+		if len(ends) >= 2 {
+			lastStart = ends[len(ends)-2]
+		}
+		if strict && !zero && allMatched && (n == len(data) || (n >= lastStart && n <= lastStart+9)) {
+			atomic.AddInt64(&e.stats.continuations, 1)
+			expect := matched
+			expect[0] = 0
+			if err := c.SetData(e.streams[0], e.data[0][0]); err != nil {
+				contWrong = append(contWrong, n)
+				firstCont = fmt.Sprintf("length %d: store after recovery fails: %v", n, err)
+			} else if ds := e.observe(c, expect); len(ds) != 0 {
+				contWrong = append(contWrong, n)
+				firstCont = fmt.Sprintf("length %d: after recovery and one more store(0,%s): %s", n, e.lists[0].name, ds[0].msg)
+			}
+			c.Close()
+			if c2, err := openCache(tmp); err != nil {
+				contWrong = append(contWrong, n)
+				firstCont = fmt.Sprintf("length %d: after recovery, one more store and a reopen NewCacheFile fails: %v", n, err)
+				atomic.AddInt64(&leakedFDs, 1)
+			} else {
+				if ds := e.observe(c2, expect); len(ds) != 0 {
+					contWrong = append(contWrong, n)
+					firstCont = fmt.Sprintf("length %d: after recovery, store(0,%s) and a second reopen: %s", n, e.lists[0].name, ds[0].msg)
+				}
+				c2.Close()
+			}
+			continue
+		}
 		c.Close()
+	}
+	if len(contWrong) != 0 {
+		e.report(mc.Violation{Symptom: "truncated.continuation-wrong", Key: "file=" + w.physSig(),
+			Msg:    fmt.Sprintf("file %s (%d bytes): the cache recovered from truncation lengths %s does not keep working; %s", w.physSig(), len(data), ranges(uniq(contWrong)), firstCont),
+			Replay: map[string]any{"file": w.physSig(), "lengths": contWrong}})
 	}
 	var bounds []string
 	for _, b := range ends {
